@@ -312,7 +312,9 @@ pub fn verify(msg: &[u8], pk: &[u8; 32], sig: &[u8; 64]) -> Verdict {
     pre.extend_from_slice(&sig[..32]);
     pre.extend_from_slice(pk);
     pre.extend_from_slice(msg);
-    let h = cryptoxide::hashing::sha512(&pre);
+    // H is SHA-512 as specified (RFC 8032), computed by the harness's own implementation: the verdict oracle does not
+    // rest on the library's hash
+    let h = crate::model::sha512::sha512(&pre);
     let hred = big::mod_l(&h);
     let sb = scalarmult(&s, &base(&dconst), &d2);
     let na = pneg(&a);
